@@ -216,6 +216,24 @@ impl<'a> R<'a> {
                 return Some("qx_unreachable()".to_string());
             }
         }
+        if let Expr::Macro(m) = e {
+            let name = m.mac.path.segments.last().map(|s| s.ident.to_string()).unwrap_or_default();
+            if name == "format" && self.opts.has_rw("str") {
+                if let Ok(args) = m.mac.parse_body_with(Punctuated::<Expr, Token![,]>::parse_terminated) {
+                    let mut it = args.iter();
+                    if let Some(Expr::Lit(l)) = it.next() {
+                        let lit = l.to_token_stream().to_string();
+                        let mut h: u64 = 1469598103934665603;
+                        for b in lit.bytes() {
+                            h = (h ^ (b as u64)).wrapping_mul(1099511628211);
+                        }
+                        let rest: Vec<String> = it.map(|a| self.expr(a)).collect();
+                        self.note("R9 format!(lit, args) -> qx_format<n>(hash(lit), args): an opaque name that is a function of the literal and the arguments");
+                        return Some(format!("qx_format{}({}u64{}{})", rest.len(), h % 1000000007, if rest.is_empty() { "" } else { ", " }, rest.join(", ")));
+                    }
+                }
+            }
+        }
         if let Some(s) = f64rw::rw_f64(self, e) {
             return Some(s);
         }
